@@ -163,6 +163,8 @@ class Program:
                 if r and r[0] == "class":
                     c.bases.append(r[1])
         self.lambdas = {}  # id(node) -> (FunctionInfo owner, node)
+        self.rename_map = {}  # current name -> reference (anchor) name
+        self._detect_renames()
 
     @classmethod
     def from_root(cls, root):
@@ -216,7 +218,67 @@ class Program:
                 if isinstance(st.target, ast.Name):
                     m.assigns.setdefault(st.target.id, []).append(st.value)
 
-    # -- resolution -------------------------------------------------------
+    # -- renamed / moved anchor functions ----------------------------------
+    def _detect_renames(self):
+        """An anchor function of the reference tree that is missing under its name but has a unique,
+        sufficiently similar counterpart (same class, same arity, similar callee/attribute/constant
+        features) is a rename: the counterpart is analysed under the reference name."""
+        ref_path = os.path.join(os.path.dirname(os.path.dirname(os.path.abspath(__file__))), "reference", "anchors.json")
+        try:
+            import json
+            with open(ref_path) as fh:
+                ref = json.load(fh)["anchors"]
+        except Exception:
+            return
+        ref_names = {(a["cls"], a["name"]) for a in ref}
+        present = {(f.cls.name if f.cls else None, f.name) for f in self.functions.values()}
+        missing = [a for a in ref if (a["cls"], a["name"]) not in present]
+        if not missing:
+            return
+        all_ref_func_names = {a["name"] for a in ref}
+        cands = [f for f in self.functions.values() if (f.cls.name if f.cls else None, f.name) not in ref_names and f.name not in all_ref_func_names]
+        def sim(a, f):
+            if (f.cls.name if f.cls else None) != a["cls"] or len(f.params) != a["nparams"]:
+                return 0.0
+            ff = set(_fingerprint(f))
+            fr = set(a["features"])
+            for nm in (f.name, a["name"]):
+                for pre in ("", ".", "@"):
+                    ff.discard(pre + nm)
+                    fr.discard(pre + nm)
+            # names of other renamed functions differ on both sides: compare the rest
+            return len(ff & fr) / max(1, len(ff | fr))
+
+        scores = [(sim(a, f), i, j) for i, a in enumerate(missing) for j, f in enumerate(cands)]
+        scores = [x for x in scores if x[0] >= 0.5]
+        scores.sort(key=lambda x: -x[0])
+        used_a, used_f = set(), set()
+        for sc, i, j in scores:
+            if i in used_a or j in used_f:
+                continue
+            # mutual best: no other unassigned pair involving i or j scores (almost) as high
+            rivals = [x for x in scores if (x[1] == i) != (x[2] == j) and x[1] not in used_a and x[2] not in used_f and sc - x[0] < 0.05]
+            if rivals:
+                continue
+            used_a.add(i)
+            used_f.add(j)
+            self._apply_rename(cands[j], missing[i]["name"])
+
+    def _apply_rename(self, f, old):
+        new = f.name
+        self.rename_map[new] = old
+        oldq = f.qualname[: -len(new)] + old
+        del self.functions[f.qualname]
+        f.name = old
+        f.qualname = oldq
+        f.renamed_from = new
+        self.functions[oldq] = f
+        if f.cls is not None:
+            f.cls.methods[old] = f
+        else:
+            f.module.functions[old] = f
+
+
     def resolve_module_name(self, m, name):
         """Resolve a module-level name used in module m.
 
@@ -307,6 +369,22 @@ class Program:
 
     def all_functions(self):
         return list(self.functions.values())
+
+
+def _fingerprint(f):
+    names = set()
+    for n in ast.walk(f.node):
+        if isinstance(n, ast.Call):
+            fn = n.func
+            if isinstance(fn, ast.Name):
+                names.add(fn.id)
+            elif isinstance(fn, ast.Attribute):
+                names.add("." + fn.attr)
+        elif isinstance(n, ast.Attribute):
+            names.add("@" + n.attr)
+        elif isinstance(n, ast.Constant) and isinstance(n.value, str) and 3 <= len(n.value) <= 60:
+            names.add("'" + n.value)
+    return sorted(names)
 
 
 def unparse(node):
